@@ -218,7 +218,16 @@ Pre(cfg, c) ==
   \cup (IF a = 0 \/ n # 2 THEN {} ELSE
           { Scn("pre", c, << Dev(c, q, "flaand", 0, MPath("Flip", << 0, 0 >>)), Dev(c, q, "flaand comm", 0, [m |-> "Mirror", inst |-> 0]),
                             Dev(c, q, "flaand hash", 0, [m |-> "Mirror", inst |-> 0]) >>,
-                "detect", {q}, "mirrored LaAND commitment and check value") : q \in Others })
+                "detect", {q}, "mirrored LaAND commitment and check value") : q \in Others }
+          \cup
+          \* the same for the other commit / open rounds: the multi-party coin toss (instance 1 of the phases) and the
+          \* aShare consistency round
+          { Scn("pre", c, << Dev(c, q, "RNG comm", 1, [m |-> "Mirror", inst |-> 1]), Dev(c, q, "RNG ver", 1, [m |-> "Mirror", inst |-> 1]) >>,
+                "detect", {q}, "mirrored coin-toss commitment and opening") : q \in Others }
+          \cup
+          { Scn("pre", c, << Dev(c, q, "fashare comm", 0, [m |-> "Mirror", inst |-> 0]), Dev(c, q, "fashare ver", 0, [m |-> "Mirror", inst |-> 0]),
+                            Dev(c, q, "fashare di_bi", 0, [m |-> "Mirror", inst |-> 0]) >>,
+                "detect", {q}, "mirrored aShare commitments and openings") : q \in Others })
   \* the same alteration at TWO positions of one checked vector (aggregated checks must not let them cancel)
   \cup UNION { Two("fabitn", MPath("Flip", << 0, 0 >>), MPath("Flip", << 3 * RHO - 1, 0 >>), "two aBit test bits")
                \cup Two("fabitn", MBit(<< 0, 1 >>, 5), MBit(<< 3 * RHO - 1, 1 >>, 5), "two aBit test MACs")
